@@ -197,11 +197,11 @@ PROPS["C02"] = dict(
     jobs=3,
     mem_gb=40,
     harnesses={
-        "c02_s1_observe_vs_collect": dict(cap=3600),
-        "c02_s2_two_observes_prefix_closed": dict(cap=7200, tier="thorough"),
-        "c02_s3_two_observers_vs_collect": dict(cap=7200, tier="thorough"),
-        "c02_s4_two_collectors": dict(cap=7200, tier="thorough"),
-        "c03_batch_flush_three_collects": dict(cap=10800, tier="thorough"),
+        "c02_s1_observe_vs_collect": dict(cap=3600, flags=["--no-memory-safety-checks"]),
+        "c02_s2_two_observes_prefix_closed": dict(cap=7200, tier="thorough", flags=["--no-memory-safety-checks"]),
+        "c02_s3_two_observers_vs_collect": dict(cap=7200, tier="thorough", flags=["--no-memory-safety-checks"]),
+        "c02_s4_two_collectors": dict(cap=7200, tier="thorough", flags=["--no-memory-safety-checks"]),
+        "c03_batch_flush_three_collects": dict(cap=10800, tier="thorough", flags=["--no-memory-safety-checks"]),
     },
     functions=["HistogramCore::observe", "HistogramCore::proto", "ShardAndCount::{inc, inc_by, flip, get}", "AtomicU64::{inc_by, inc_by_with_ordering, swap, compare_exchange_weak}", "AtomicF64::{inc_by, swap}"],
     bounds="K rounds (see env PROMETHEUS_VERIF_K), 2-3 threads, observations in {0,1,2,3}, 1-2 buckets, unwind 6",
